@@ -256,6 +256,18 @@ def boundary_molecules(rng):
             m._atoms[a]._is_radical = bool(rng.getrandbits(1))
             m._atoms[b]._implicit_hydrogens = 3
             yield 'hcr(%r,%d)' % (h, ch), m
+    # every element with each of its tabulated isotopes (the decoder has its own table of reference isotopes)
+    from chython.periodictable import Element
+    for cls in sorted(Element.__subclasses__(), key=lambda c: c.atomic_number.fget(None)):
+        isos = sorted(cls().isotopes_masses)
+        for iso in isos:
+            m = MoleculeContainer()
+            m.add_atom(cls(iso), rng.randrange(1, 4096), _skip_calculation=True)
+            m._changed = None
+            m.calc_labels()
+            for x in m._atoms:
+                m._atoms[x]._implicit_hydrogens = 0
+            yield 'isotope(%s-%d)' % (cls.__name__, iso), m
     # cis/trans block sizes: polyenes with k labelled double bonds, allenes, tetrahedral centres
     for k in range(1, 9):
         s = 'C' + ''.join(rng.choice(('/C=C/', '/C=C\\', '\\C=C/')) + 'C' for _ in range(k))
